@@ -3,6 +3,7 @@
   harness reads, runs the model at the `Cx` (Float) kernel, prints the same observation lines.
 -/
 import Calc.Exec.Canon
+import Calc.Model.Render
 open Calc Calc.Exec
 
 def evalFuel : Nat := 3000
@@ -132,6 +133,18 @@ def runCase (line : String) : IO PUnit := do
       | some d => lineOut id ("FMT " ++ fbits (Float.ofBits (decimalToBits d.mant d.exp)))
       | none => lineOut id "FMT error"
     | _ => lineOut id "FMT ?"
+  | "diagline" =>
+    -- the rendered line of a diagnostic (C14Render): the model's reader applied to the implementation's text, and the
+    -- model's frame `renderPos l c` compared with the beginning of that text
+    let l := (f.getD 2 "0").toNat!
+    let c := (f.getD 3 "0").toNat!
+    let txt := unhex (f.getD 4 "-")
+    let frame := renderPos l c
+    let framed := txt.take frame.length == frame
+    match readPos txt with
+    | some (l', c', msg) =>
+      lineOut id ("DIAGLINE " ++ (if framed && l' == l && c' == c then "1" else "0") ++ " " ++ toString l' ++ " " ++ toString c' ++ " " ++ toString msg.length)
+    | none => lineOut id "DIAGLINE 0 unreadable"
   | _ => lineOut id "UNKNOWN-STREAM"
 
 partial def loop (h : IO.FS.Stream) (idx : Nat) : IO PUnit := do
